@@ -534,7 +534,7 @@ META = {
         "centre positions / larger bonds are outside; for centre 0 the conditional weights are Born marginals "
         "for right-canonical factors, which is decided for MPS given in that form (N=2 D<=2, N=3 D=1)",
         "N > 3 atoms, more than 70 shots, bond dimension > 2; outcome sequences other than the enumerated ones "
-        "(all sequences for <= 2 shots; arithmetic patterns for 33..70 shots)",
+        "(all sequences for <= 2 shots; arithmetic patterns for 32..70 shots)",
         "error rates outside [0,1]; floating-point rounding",
     ],
     "assumptions": [
@@ -569,7 +569,7 @@ def cases(tier):
             )
         )
     small = [1, 2]
-    big = [33, 40] if quick else [33, 40, 64, 70]
+    big = [32, 33, 40] if quick else [32, 33, 40, 64, 70]  # (32 = exactly one full batch, 64 = two)
     for name, mk, cov, wm in (("sv", sv_sample, COVERS_SV, "weights_not_squared"), ("dm", dm_sample, COVERS_DM, "weights_shifted")):
         for n in ([1, 2] if quick else [1, 2, 3]):
             ex_shots = small if n < 3 else [1]
